@@ -42,8 +42,8 @@ func HarnessC02Manager() {
 	s.Put(p)
 	for k := 0; k < ownOlder; k++ {
 		o := &v1.ProviderRevision{ObjectMeta: metav1.ObjectMeta{
-			Name:   "provider-x-own" + string(rune('0'+k)),
-			Labels: map[string]string{v1.LabelParentPackage: zzPkgName},
+			Name:            "provider-x-own" + string(rune('0'+k)),
+			Labels:          map[string]string{v1.LabelParentPackage: zzPkgName},
 			OwnerReferences: []metav1.OwnerReference{{APIVersion: "pkg.crossplane.io/v1", Kind: "Provider", Name: zzPkgName, UID: zzPkgUID, Controller: ptr.To(true)}},
 		}}
 		o.Spec.Revision = int64(2 + k)
@@ -66,8 +66,8 @@ func HarnessC02Manager() {
 		zz.Cover("foreign-other")
 	}
 	r := &v1.ProviderRevision{ObjectMeta: metav1.ObjectMeta{
-		Name:   name,
-		Labels: map[string]string{v1.LabelParentPackage: zzPkgName},
+		Name:            name,
+		Labels:          map[string]string{v1.LabelParentPackage: zzPkgName},
 		OwnerReferences: []metav1.OwnerReference{{APIVersion: "pkg.crossplane.io/v1", Kind: "Provider", Name: zz.Str("foreign.owner.name"), UID: types.UID(foreign), Controller: ptr.To(true)}},
 	}}
 	r.Spec.Revision = 1
